@@ -178,7 +178,7 @@ def plans(tier, seed):
                           "all 6 declaration orders of two parameter triples", "palette": pal}
     else:
         a = [(i, lab, s) for i, (_, lab, s) in enumerate(all_specs(3, 4, 1, pal))]
-        jobs = [({"d": 0, "subsets": "rotating", "variants": [("SX", 0), ("SX", 1), ("SX", 2), ("MX", 0), ("MX", 2)]}, a),
+        jobs = [({"d": 0, "subsets": "rotating", "variants": [("SX", 0), ("SX", 2), ("MX", 1)]}, a),
                 ({"d": 1, "subsets": "pairs", "variants": [(s, c) for s in ("SX", "MX") for c in (0, 1, 2)], "orders": True,
                  "both_pv": True}, h),
                 ({"d": 0, "subsets": "all", "variants": [("SX", 0)]}, h)]
